@@ -84,8 +84,8 @@ def run(ctx) -> None:
     # A3 / A4 from the consumer
     cs = consumer_scenarios(I0, "many")
     for mode in ("first_find", "all_finds"):
-        full = {r for s in cs if s.mode == mode and not s.only_addr and s.path.kind == "return" for r in s.reported(I0)}
-        addr = {r for s in cs if s.mode == mode and s.only_addr and s.path.kind == "return" for r in s.reported(I0)}
+        full = {r for s in cs if s.mode == mode and not s.only_addr and s.path.kind == "return" for r in map(_shape, s.reported(I0))}
+        addr = {r for s in cs if s.mode == mode and s.only_addr and s.path.kind == "return" for r in map(_shape, s.reported(I0))}
         ok = len(full) == 1 and len(addr) == 1 and list(addr)[0] == list(full)[0] + ".split('::')[0]"
         ctx.check(ok, "C12.A3.address-projection", f"CompleteConsumer[{mode}]", f"addr={sorted(addr)} full={sorted(full)}",
                   "address-only value is split('::')[0] of the text reported in full mode, for the same match")
@@ -95,7 +95,8 @@ def run(ctx) -> None:
             for c in s.regex_calls(I0):
                 sigs.setdefault(s.mode, set()).add((c["kwargs"].get("pattern"), c["kwargs"].get("string"),
                                                     tuple(sorted(c["kwargs"]))))
-    ok = len(sigs.get("first_find", ())) == 1 and sigs.get("first_find") == sigs.get("all_finds")
+    ok = bool(sigs.get("first_find")) and sigs.get("first_find") == sigs.get("all_finds") and \
+        len({pat for pat, _, _ in sigs["first_find"]}) == 1 and len({kw for _, _, kw in sigs["first_find"]}) == 1
     ctx.check(ok, "C12.A4.mode-selects-call-only", "CompleteConsumer.finalize", f"{sigs}"[:200],
               "first-find and all-finds search the same pattern over the same string with the same options")
     # A5: the modes do not reach compilation
@@ -108,3 +109,9 @@ def run(ctx) -> None:
                     bad.append(txt)
     ctx.check(not bad, "C12.A5.modes-not-in-compilation", "MasterOfPuppets.__init__", ";".join(bad)[:160],
               "Yaml2Regex receives only the pattern path and the macro files")
+
+
+def _shape(expr: str) -> str:
+    """the provenance expression of a reported value with the search arguments elided"""
+    import re as _re
+    return _re.sub(r"\((pattern=|<REGEX>).*?timeout=[^)]*\)", "(...)", expr)
